@@ -407,6 +407,44 @@ fn prog_cases(tier: &str) -> Vec<Value> {
         }
     }
     flush("peek-poke", &mut lines, &mut expect, &mut labels, &mut cases);
+    // two INTEGER variables side by side behind a string: after the string has grown or shrunk by 1 .. 4 bytes one of
+    // them stands where the other one stood when it was last read; each PEEK must still read the variable it names
+    for &a in &[4660, -2, 255, 256] {
+        let other: i32 = (a as i16 ^ 0x5555) as i32;
+        let pk = |v: i32| {
+            let b = (v as i16).to_le_bytes();
+            format!("{}{}", fmt_num(b[0] as i64), fmt_num(b[1] as i64))
+        };
+        for in_sub in [false, true] {
+            for k in 1..=4usize {
+                let mut l: Vec<String> = vec![];
+                let mut e: Vec<String> = vec![];
+                if in_sub {
+                    for o in ["DECLARE SUB Work ()", "Work", "END", "SUB Work"] {
+                        l.push(o.to_string());
+                    }
+                }
+                l.push("T$ = \"abcd\"".to_string());
+                l.push(format!("WA% = {}: WB% = {}: WC% = 7", lit(a), lit(other)));
+                let both = "PRINT PEEK(VARPTR(WB%)); PEEK(VARPTR(WB%) + 1); PEEK(VARPTR(WA%)); PEEK(VARPTR(WA%) + 1)";
+                l.push(both.to_string());
+                e.push(format!("{}{}", pk(other), pk(a)));
+                for step in [format!("T$ = T$ + \"{}\"", "z".repeat(k)), "T$ = \"ab\"".to_string(), format!("T$ = \"{}\"", "y".repeat(2 + k)), "T$ = \"\"".to_string()] {
+                    l.push(step);
+                    l.push("PRINT PEEK(VARPTR(WA%)); PEEK(VARPTR(WA%) + 1); PEEK(VARPTR(WB%)); PEEK(VARPTR(WB%) + 1); PEEK(VARPTR(WC%))".to_string());
+                    e.push(format!("{}{}{}", pk(a), pk(other), fmt_num(7)));
+                }
+                // a copy byte by byte after another change of size
+                l.push("T$ = \"abcdef\"".to_string());
+                l.push("POKE VARPTR(WC%), PEEK(VARPTR(WA%)): POKE VARPTR(WC%) + 1, PEEK(VARPTR(WA%) + 1): PRINT WC%; WA%; WB%".to_string());
+                e.push(format!("{}{}{}", fmt_num(a as i64), fmt_num(a as i64), fmt_num(other as i64)));
+                if in_sub {
+                    l.push("END SUB".to_string());
+                }
+                cases.push(json!({"k": "prog", "what": "peek-poke-neighbours", "text": l.join("\n") + "\n", "expect": e.join("\r\n") + "\r\n", "labels": [format!("two variables, value {} grown by {}{}", a, k, if in_sub { " in a SUB" } else { "" })], "n": l.len()}));
+            }
+        }
+    }
     // PEEK / POKE of an INTEGER variable whose neighbours change size between the accesses: a string that grows
     // and shrinks, a dynamic array that is REDIMmed, at module level and inside a SUB (the address of the variable
     // may move, the two bytes read and written through VARPTR must still be the variable's)
@@ -701,7 +739,7 @@ pub fn drive(tier: &str) -> i32 {
     cases.extend(progs);
     run.run_pool(&pool, cases.into_iter(), |_, _, _, _| {});
     let mut ev = Evidence::new("exploration");
-    ev.set("rule", "function level: every (a, b) with a in all 65536 INTEGER values and b in a 79-value lattice (boundaries, one-hots, complements, alternating patterns) for qb_and/qb_or; all 65536 values for i32_to_bytes/bytes_to_i32 (which also covers all 65536 byte pairs); every double sign x biased exponent 0..=2046 x mantissa lattice for f64_to_bytes/bytes_to_f64 (subnormals and magnitudes >= 2^63 included, NaN/inf excluded). Program level: AND/OR/NOT via PRINT, PEEK/POKE of both bytes via VARPTR, MKD$ bytes compared one by one via CHR$ and CVD via exact subtraction, on literals and on run-time power-of-two ladders. Enumeration has no repeats; non-trivial = result differs from both operands and from 0/-1 (and/or), value not 0/-1 (bytes), mantissa non-zero (doubles), every program-level statement. peek-poke-neighbours: PEEK and POKE of both bytes of an INTEGER variable (6 values) whose neighbours change size between the accesses — a string that grows and shrinks, a dynamic array that is REDIMmed, both — at module level and inside a SUB (6 layouts): the bytes are the variable's before and after every change.");
+    ev.set("rule", "function level: every (a, b) with a in all 65536 INTEGER values and b in a 79-value lattice (boundaries, one-hots, complements, alternating patterns) for qb_and/qb_or; all 65536 values for i32_to_bytes/bytes_to_i32 (which also covers all 65536 byte pairs); every double sign x biased exponent 0..=2046 x mantissa lattice for f64_to_bytes/bytes_to_f64 (subnormals and magnitudes >= 2^63 included, NaN/inf excluded). Program level: AND/OR/NOT via PRINT, PEEK/POKE of both bytes via VARPTR, MKD$ bytes compared one by one via CHR$ and CVD via exact subtraction, on literals and on run-time power-of-two ladders. Enumeration has no repeats; non-trivial = result differs from both operands and from 0/-1 (and/or), value not 0/-1 (bytes), mantissa non-zero (doubles), every program-level statement. peek-poke-neighbours: PEEK and POKE of both bytes of an INTEGER variable (6 values) whose neighbours change size between the accesses — a string that grows and shrinks, a dynamic array that is REDIMmed, both — at module level and inside a SUB (6 layouts): the bytes are the variable's before and after every change; two INTEGER variables side by side behind a string that grows and shrinks by 1 .. 4 bytes (one then stands where the other stood when it was last read), at module level and in a SUB: each PEEK reads the variable it names.");
     ev.set("exhaustive", true);
     ev.set("function_level_chunks", function_level_cases as u64);
     ev.set("program_level_programs", program_cases as u64);
